@@ -535,6 +535,10 @@ class JSONGrammar(BaseGrammar):
         del state[f"_{self.__class__.__name__}__validator"]
         # The schema builder cannot be pickled.
         del state[f"_{self.__class__.__name__}__schema_builder"]
+        # The schema URI of the builder may be undefined
+        # (the schema then shows the default one):
+        # it will be defined by the first schema added later on.
+        state["schema_uri"] = self.__schema_builder.schema_uri
         # The defaults cannot be pickled as is because it also depends on the schema
         # builder. So we convert it into a raw dictionary.
         state["defaults"] = dict(state.pop("_defaults"))
@@ -546,10 +550,14 @@ class JSONGrammar(BaseGrammar):
     ) -> None:
         # That will create the missing attributes.
         self.clear()
+        has_schema_uri = "schema_uri" in state
+        schema_uri = state.pop("schema_uri", None)
         self.__dict__.update(state)
         self.__schema_builder.add_schema(
             state[f"_{self.__class__.__name__}__schema"], True
         )
+        if has_schema_uri:
+            self.__schema_builder.schema_uri = schema_uri
         # The required names are handled by the grammar, not by the schema builder.
         self.__schema_builder.required.clear()
         self._defaults.update(cast("StrKeyMapping", state.pop("defaults")))
